@@ -2531,6 +2531,8 @@ class Polygon2D(Base2DIn2D):
         """
         # compute the initial distances between the holes and the boundary
         original_boundary = boundary[:]
+        if split:  # area that the two split shapes must have together
+            split_area = Polygon2D(boundary).area - sum(Polygon2D(h).area for h in holes)
         hole_dicts, min_dists = [], []
         for hole in holes:
             dist_dict = {}
@@ -2596,9 +2598,11 @@ class Polygon2D(Base2DIn2D):
             boundary_2 = boundary[:p2_bound_i + 1] + boundary[p2_hole_i:]
         poly_1, poly_2 = Polygon2D(boundary_1), Polygon2D(boundary_2)
 
-        # if the split polygons are self-intersecting, try to find a solution
+        # if the split polygons are self-intersecting or do not add up to the shape
+        # (e.g. the two seams run along the same line), try to find a solution
         p2_index = 0
-        while poly_1.is_self_intersecting or poly_2.is_self_intersecting:
+        while poly_1.is_self_intersecting or poly_2.is_self_intersecting or \
+                abs(poly_1.area + poly_2.area - split_area) > 1e-6 * split_area:
             p2_index += 1
             try:
                 p2_indices = dist_dict[sort_dist[p2_index]]
